@@ -518,6 +518,8 @@ def check(fx, rep, tier):
     from .. import core as _core3
 
     _core3.import_rules(rep, fx, "C03", "R08.5", only_rules=("R03.1", "R03.3", "R03.4"), floor=8, what="stop-condition obligations (C03 R03.1) behind 'while the limits allow'")
+    # the target the validator sees is a folded constant: the folder computes what the EVM computes (C09)
+    _core3.import_rules(rep, fx, "C09", "R08.1", floor=100, what="constant-folding obligations (C09) behind 'the full 256-bit target value'")
     # the EVM ends a path whose stack would exceed 1024 items or underflow: the stack raises on every growing / shrinking operation
     _core3.import_rules(rep, fx, "C17", "R08.3", only_rules=("R17.6",), floor=2, what="stack-limit obligations (C17 R17.6) behind 'a failed instruction ends the path'", key_filter=lambda k: "stack-" in k)
     # jump targets computed from PC: PC pushes the offset of the PC instruction itself (shared with C07 R07.2)
